@@ -10,6 +10,7 @@ import (
 	"os"
 	"runtime/debug"
 	"strings"
+	"sync"
 
 	"golang.org/x/tools/go/ssa"
 )
@@ -126,7 +127,11 @@ func (x *Exec) ensureInit(pkg *ssa.Package) {
 	if init := pkg.Func("init"); init != nil {
 		saved := x.spec
 		x.spec = nil // initialisation is not part of any speculation
+		s0 := x.steps
 		x.call(nil, init, nil)
+		if os.Getenv("SYMGO_INITPROF") != "" {
+			fmt.Fprintf(os.Stderr, "init %s: %d steps\n", pkg.Pkg.Path(), x.steps-s0)
+		}
 		x.spec = saved
 	}
 }
@@ -146,8 +151,16 @@ func loc(fset *token.FileSet, pos token.Pos) string {
 }
 
 func (fr *frame) where(instr ssa.Instruction) string {
-	return fr.fn.String() + " at " + loc(fr.fn.Prog.Fset, instr.Pos())
+	// cached: called on every index operation (hot path)
+	if s, ok := whereCache.Load(instr); ok {
+		return s.(string)
+	}
+	s := fr.fn.String() + " at " + loc(fr.fn.Prog.Fset, instr.Pos())
+	whereCache.Store(instr, s)
+	return s
 }
+
+var whereCache sync.Map
 
 // runDefer runs a deferred call d. It always returns normally but may set or clear fr.panicking.
 func (fr *frame) runDefer(d *deferred) {
@@ -411,6 +424,16 @@ func (x *Exec) prepareCall(fr *frame, call *ssa.CallCommon) (fn Value, args []Va
 		fn = v
 	} else {
 		recv := v.(Iface)
+		if recv.t == nil && call.Method.Pkg() != nil && x.eng.isNoopPkg(call.Method.Pkg().Path()) {
+			// nil logger/metric interface produced by a no-op'ed constructor: the call is a no-op too
+			res := call.Signature().Results()
+			return NativeFn(func(*Exec, *frame, []Value) Value {
+				if res.Len() == 0 {
+					return nil
+				}
+				return zero(res)
+			}), nil
+		}
 		if recv.t == nil {
 			x.tpanic("invalid memory address or nil pointer dereference (method call on nil interface " + call.Method.Name() + ") in " + fr.fn.String())
 		}
